@@ -26,15 +26,22 @@ Proof. exact print_total. Qed.
    for every byte string, both lexer modes, every number-conversion oracle (and every fuel) *)
 Theorem C08_clean_tree_has_no_missing_children : forall (conv : numconv) (lineMode : bool) (src : bytes) r,
   front_parse conv lineMode src = POk r -> clean r = true -> program_nil_free (pr_tree r) = true.
-Proof. intros conv lineMode src r. exact (clean_tree_nil_free conv _ _ _ r). Qed.
+Proof.
+  intros conv lineMode src r. unfold front_parse.
+  destruct (parse_program conv _ _ _) as [r0| |] eqn:E; try discriminate. intros [= <-] Hc.
+  apply (clean_tree_nil_free conv _ _ _ r0 E). unfold clean in Hc. unfold clean_result. simpl in Hc.
+  destruct (pr_errs r0); [|discriminate]. apply negb_true_iff in Hc. apply orb_false_iff in Hc as [-> _]. reflexivity.
+Qed.
 
 (* ... and that tree can be printed in every mode without panicking *)
 Theorem C08_clean_tree_prints : forall (conv : numconv) (lineMode : bool) (src : bytes) r (compact allparens : bool),
   front_parse conv lineMode src = POk r -> clean r = true ->
   exists out, print_program compact allparens (pr_tree r) = Some out.
 Proof.
-  intros conv lineMode src r compact allparens H Hc. apply print_total.
-  exact (clean_tree_printable conv _ _ _ r H Hc).
+  intros conv lineMode src r compact allparens. unfold front_parse.
+  destruct (parse_program conv _ _ _) as [r0| |] eqn:E; try discriminate. intros [= <-] Hc.
+  apply print_total. apply (clean_tree_printable conv _ _ _ r0 E). unfold clean in Hc. unfold clean_result. simpl in Hc.
+  destruct (pr_errs r0); [|discriminate]. apply negb_true_iff in Hc. apply orb_false_iff in Hc as [-> _]. reflexivity.
 Qed.
 
 (* non-vacuity: a source that parses cleanly in both modes *)
